@@ -38,6 +38,14 @@ def run(ctx):
     # back-to-back updates with a reader arriving between the switch and the version toggle
     jobs.append(({'x': '1'}, [['update 1', 'update 2', 'update 3'], ['read', 'read'], ['read']], 'dfs', 4 * n, ctx['seed'], ('--pb', '3')))
     do_search(ctx, H, jobs, 'left_right')
+    if tie and not ctx['V'].violations:
+        # model and code disagree (e.g. on a memory order) and SC interleavings show no failure: look among the weak executions of C03
+        wj = []
+        for k in range(4):
+            prog = program(rng, 1 + k % 2, 2, 3)
+            wj.append(({'x': '1', 'weak': '16'}, prog, 'random', 1500, ctx['seed'] + k, ()))
+            wj.append(({'x': '1', 'race': '1'}, prog, 'random', 800, ctx['seed'] + k, ()))
+        do_search(ctx, H, wj, 'left_right-weak')
     return tie
 
 def replay(sig, V, wd):
